@@ -781,6 +781,12 @@ func runSigned(c *Case) outcome {
 			evid.R.Label("signed-result:"+cl, 1)
 		}
 		classes = append(classes, cl)
+		if strings.HasPrefix(cl, "accepted") && len(m.Header.StateRoot) == 0 {
+			// artefact of the fake application, not of the engine: it treats an empty expected state root as "do not compare" (a real
+			// application compares), so this block got in. The state that follows cannot occur; nothing after it is judged.
+			evid.R.Label("signed-empty-state-root-accepted-by-fake-application(case-ends)", 1)
+			return outcome{class: signedClass(classes), passed: true}
+		}
 		if x.sib && strings.HasPrefix(cl, "accepted") {
 			// the new tip sits in the current wall-clock slot: every successor would be a future block. Nothing more to offer.
 			evid.R.Label("signed-sibling-accepted(no-successor-possible)", 1)
